@@ -711,6 +711,7 @@ func realScenario(id int, rng *rand.Rand, probe string, baseSocks map[int]bool) 
 	}
 	res := make([]cliRes, len(plans))
 	var wg sync.WaitGroup
+	var shutdownNil int32
 	stopClients := make(chan struct{})
 	for i := range plans {
 		wg.Add(1)
@@ -724,12 +725,16 @@ func realScenario(id int, rng *rand.Rand, probe string, baseSocks map[int]bool) 
 				return
 			}
 			res[i].connected = true
-			defer c.Close()
 			if p.kind == "connclose" {
 				res[i].closedAt = since()
+				c.Close()
 				return
 			}
 			rd := make(chan struct{})
+			defer func() { // close, then join the reader so that its counters are final
+				c.Close()
+				<-rd
+			}()
 			go func() { // reader: replies and EOF
 				buf := make([]byte, 64)
 				for {
@@ -739,18 +744,30 @@ func realScenario(id int, rng *rand.Rand, probe string, baseSocks map[int]bool) 
 						res[i].replyAt = since()
 					}
 					if err != nil {
-						res[i].eofAt = since()
+						if ne, ok := err.(net.Error); !(ok && ne.Timeout()) {
+							res[i].eofAt = since() // EOF / reset (or our own Close, for the clients that close first)
+						}
 						close(rd)
 						return
 					}
 				}
 			}()
+			// the scenario is over: if Shutdown returned nil the server has closed this connection and the EOF
+			// is already queued; give the reader the chance to see it before we close (no timing assumption)
+			lastLook := func() {
+				if atomic.LoadInt32(&shutdownNil) == 1 {
+					c.SetReadDeadline(time.Now().Add(3 * time.Second))
+					<-rd
+				}
+				res[i].closedAt = since()
+			}
 			sendAt := p.connectAt + p.at
 			select {
 			case <-time.After(sendAt - since()):
 			case <-rd:
 				return
 			case <-stopClients:
+				lastLook()
 				return
 			}
 			switch p.kind {
@@ -772,7 +789,7 @@ func realScenario(id int, rng *rand.Rand, probe string, baseSocks map[int]bool) 
 			select {
 			case <-rd:
 			case <-stopClients:
-				res[i].closedAt = since()
+				lastLook()
 			}
 		}(i)
 	}
@@ -793,8 +810,8 @@ func realScenario(id int, rng *rand.Rand, probe string, baseSocks map[int]bool) 
 			}
 		}
 	}
-	ctx, cancel := context.WithTimeout(context.Background(), deadline)
 	t0 := since()
+	ctx, cancel := context.WithTimeout(context.Background(), deadline)
 	var shErr error
 	shPanic := ""
 	func() {
@@ -882,16 +899,19 @@ func realScenario(id int, rng *rand.Rand, probe string, baseSocks map[int]bool) 
 	}
 	// clients stay until every handler that may still be running has answered
 	quiet := 0
-	for dl := time.Now().Add(3 * time.Second); time.Now().Before(dl) && quiet < 15; time.Sleep(2 * time.Millisecond) {
+	for dl := time.Now().Add(15 * time.Second); time.Now().Before(dl) && quiet < 15; time.Sleep(2 * time.Millisecond) {
 		if atomic.LoadInt32(&running) == 0 {
 			quiet++
 		} else {
 			quiet = 0
 		}
 	}
+	if shErr == nil && shPanic == "" {
+		atomic.StoreInt32(&shutdownNil, 1)
+	}
 	close(stopClients)
 	wg.Wait()
-	dl := time.Now().Add(longest + 1500*time.Millisecond)
+	dl := time.Now().Add(longest + 15*time.Second)
 	finalTracked, finalAlive, finalOpen := -1, -1, -1
 	for time.Now().Before(dl) {
 		finalTracked, finalAlive, finalOpen = 0, 0, 0
@@ -933,13 +953,8 @@ func realScenario(id int, rng *rand.Rand, probe string, baseSocks map[int]bool) 
 		if order["prepare"] != 0 {
 			cbBad++
 		}
-		if cj, ok := order["closecb"]; ok && cj != len(c.ev)-1 {
-			cbBad++
-		}
-		if dj, ok := order["disconnect"]; ok {
-			if cj, ok2 := order["connect"]; ok2 && dj < cj {
-				cbBad++
-			}
+		if cj, ok := order["connect"]; ok && cj != 1 {
+			cbBad++ // OnConnect, when it runs, is the first callback after OnPrepare
 		}
 		if cbBad > bad0 {
 			names := make([]string, len(c.ev))
@@ -964,14 +979,16 @@ func realScenario(id int, rng *rand.Rand, probe string, baseSocks map[int]bool) 
 	}
 	mu.Unlock()
 	// clients that were idle (connected well before, nothing pending) must have seen EOF by the return + grace
+	idleInfo := ""
 	for i, p := range plans {
 		if !res[i].connected || res[i].closedAt != 0 && res[i].closedAt < t1 {
 			continue
 		}
 		quiet := p.kind == "idle" || ((p.kind == "send") && (p.connectAt+p.at > t1+20*time.Millisecond || (res[i].replyAt != 0 && res[i].replyAt < t0-20*time.Millisecond)))
 		if quiet && p.connectAt < t0-20*time.Millisecond && shErr == nil {
-			if res[i].eofAt == 0 || res[i].eofAt > t1+time.Second {
+			if res[i].eofAt == 0 || res[i].eofAt > t1+5*time.Second {
 				idleLeft++
+				idleInfo += fmt.Sprintf("[%s@%d/send@%d/eof@%d/replies%d]", p.kind, p.connectAt/time.Millisecond, (p.connectAt+p.at)/time.Millisecond, res[i].eofAt/time.Millisecond, res[i].replies)
 			}
 		}
 	}
@@ -998,17 +1015,47 @@ func realScenario(id int, rng *rand.Rand, probe string, baseSocks map[int]bool) 
 			sh = "err"
 		}
 	}
+	// descriptor census: a leak stays, an accept that is still finishing under load does not
 	socks, _ := censusFds()
+	for dl := time.Now().Add(10 * time.Second); time.Now().Before(dl); time.Sleep(5 * time.Millisecond) {
+		extra := 0
+		for _, fd := range socks {
+			if !baseSocks[fd] {
+				extra++
+			}
+		}
+		if extra == 0 {
+			break
+		}
+		socks, _ = censusFds()
+	}
 	left := 0
+	leftInfo := "-"
 	for _, fd := range socks {
 		if !baseSocks[fd] {
 			left++
+			lsa, _ := syscall.Getsockname(fd)
+			psa, perr := syscall.Getpeername(fd)
+			acc, _ := syscall.GetsockoptInt(fd, syscall.SOL_SOCKET, syscall.SO_ACCEPTCONN)
+			leftInfo = fmt.Sprintf("fd%d/local:%s/peer:%s/%v/listening:%d", fd, saStr(lsa), saStr(psa), perr, acc)
 		}
 	}
-	return fmt.Sprintf("obs id=%d probe=%s net=%s clients=%d accepted=%d onconnect=%v prep_ms=%d sh=%s dur_ms=%d deadline_ms=%d serve=%s ln_open=%d tracked_at_ret=%d stale_at_ret=%d alive_at_ret=%d open_at_ret=%d open_after_grace=%d late_accept=%d again=%s again_tracked=%d final_tracked=%d final_alive=%d final_open=%d cb_bad=%d close_twice=%d spanning=%d busy_closed=%d no_reply=%d idle_left=%d socks_left=%d bad_seq=%s",
+	return fmt.Sprintf("obs id=%d probe=%s net=%s clients=%d accepted=%d onconnect=%v prep_ms=%d sh=%s dur_ms=%d deadline_ms=%d serve=%s ln_open=%d tracked_at_ret=%d stale_at_ret=%d alive_at_ret=%d open_at_ret=%d open_after_grace=%d late_accept=%d again=%s again_tracked=%d final_tracked=%d final_alive=%d final_open=%d cb_bad=%d close_twice=%d spanning=%d busy_closed=%d no_reply=%d idle_left=%d socks_left=%d bad_seq=%s left_info=%s idle_info=%s t0_ms=%d",
 		id, probeName(probe), network, len(plans), accepted, useOnConnect, prepDelay/time.Millisecond, sh, (t1-t0)/time.Millisecond, deadline/time.Millisecond,
 		serveRet, lnOpen, trackedAtRet, staleAtRet, aliveAtRet, openAtRet, openAfterGrace, lateAccept, again, againTracked,
-		finalTracked, finalAlive, finalOpen, cbBad, closeTwice, spanning, busyClosed, noReply, idleLeft, left, badSeq)
+		finalTracked, finalAlive, finalOpen, cbBad, closeTwice, spanning, busyClosed, noReply, idleLeft, left, badSeq, strings.ReplaceAll(leftInfo, " ", "_"), "-"+idleInfo, t0/time.Millisecond)
+}
+
+func saStr(sa syscall.Sockaddr) string {
+	switch a := sa.(type) {
+	case *syscall.SockaddrInet4:
+		return fmt.Sprintf("%d.%d.%d.%d:%d", a.Addr[0], a.Addr[1], a.Addr[2], a.Addr[3], a.Port)
+	case *syscall.SockaddrUnix:
+		return "unix:" + a.Name
+	case nil:
+		return "nil"
+	}
+	return fmt.Sprintf("%T", sa)
 }
 
 func probeName(p string) string {
@@ -1080,7 +1127,15 @@ func srvEmfile(opsOut string) int {
 	})
 	served := make(chan error, 1)
 	go func() { served <- evl.Serve(ln) }()
-	time.Sleep(20 * time.Millisecond)
+	for i := 0; i < 20000; i++ { // until the listener is registered
+		evl.(*eventLoop).Lock()
+		ok := evl.(*eventLoop).svr != nil
+		evl.(*eventLoop).Unlock()
+		if ok {
+			break
+		}
+		time.Sleep(100 * time.Microsecond)
+	}
 	ta := ln.Addr().(*net.TCPAddr)
 	sa := &syscall.SockaddrInet4{Port: ta.Port, Addr: [4]byte{127, 0, 0, 1}}
 	const perEp = 3
@@ -1205,6 +1260,7 @@ func VerifSrvHMain(args []string) int {
 	}
 	SetLoggerOutput(io.Discard)
 	SetNumLoops(*loops)
+	pollmanager.Pick() // start the pollers now (not under descriptor exhaustion, not racing the scenarios)
 	switch *mode {
 	case "sweep":
 		return srvSweep(*facts, *plan, *opsOut, *implOut, *cfg)
